@@ -211,7 +211,10 @@ class _ScriptedStdin:
             raise anyio.ClosedResourceError
         self._p.stdin_writes.append(data)
         self._p.events.append(("stdin.send", len(data)))
-        await asyncio.sleep(0)
+        # a pipe to a slow reader: the write is buffered at once (as asyncio's StreamWriter.write does) and the
+        # caller then waits for the drain, in proportion to the size
+        delay = getattr(self._p, "stdin_delay", 0.0)
+        await asyncio.sleep(delay * (1 + len(data) // 65536) if delay else 0)
 
     async def aclose(self):
         self.closed = True
